@@ -72,6 +72,7 @@ type Frame struct {
 	lastPartial map[*Cell]map[int]bool
 	inlineInits bool
 	mutatedParams map[*ssa.Parameter]bool
+	curState *State // state at the point of the current loop/call analysis (for pointer-valued cells)
 	activeIter *loopInfo // the maps.Iterate loop whose callback is currently being executed inline (for `visited`)
 }
 
@@ -603,6 +604,7 @@ func (fr *Frame) enterLoop(li *loopInfo, live []edgeIn, cond string, cur *State)
 	// 2. assert invariants on entry
 	fr.checkInvariants(li, cond, cur, "inv-init")
 	// 3. havoc
+	fr.curState = cur
 	cells, all := fr.writtenCells(li.body)
 	if all {
 		for c := range cur.cells {
@@ -804,6 +806,34 @@ func (fr *Frame) writtenCells(blocks map[*ssa.BasicBlock]bool) (map[*Cell]bool, 
 	return out, all
 }
 
+// throughPointerLoad reports whether addr is reached by dereferencing a pointer that was itself loaded from memory.
+func throughPointerLoad(addr ssa.Value) bool {
+	for d := 0; d < 20; d++ {
+		switch x := addr.(type) {
+		case *ssa.FieldAddr:
+			addr = x.X
+		case *ssa.IndexAddr:
+			addr = x.X
+		case *ssa.Slice:
+			addr = x.X
+		case *ssa.ChangeType:
+			addr = x.X
+		case *ssa.UnOp:
+			if x.Op == token.MUL {
+				if _, isPtr := x.Type().Underlying().(*types.Pointer); isPtr {
+					return true
+				}
+				addr = x.X
+				continue
+			}
+			return false
+		default:
+			return false
+		}
+	}
+	return false
+}
+
 // firstField returns the top-level field through which addr reaches into its root, or -1.
 func firstField(addr ssa.Value) int {
 	field := -1
@@ -811,9 +841,19 @@ func firstField(addr ssa.Value) int {
 		switch x := addr.(type) {
 		case *ssa.FieldAddr:
 			field = x.Field
-			switch x.X.(type) {
+			switch xx := x.X.(type) {
 			case *ssa.Parameter, *ssa.Alloc, *ssa.FreeVar, *ssa.Global:
 				return field
+			case *ssa.UnOp:
+				// a field of the struct a captured pointer variable points to
+				if xx.Op == token.MUL {
+					if _, isPtr := xx.Type().Underlying().(*types.Pointer); isPtr {
+						switch xx.X.(type) {
+						case *ssa.Parameter, *ssa.Alloc, *ssa.FreeVar, *ssa.Global:
+							return field
+						}
+					}
+				}
 			}
 			addr = x.X
 		case *ssa.IndexAddr:
@@ -874,6 +914,7 @@ func (fr *Frame) collectWrites(blocks []*ssa.BasicBlock, env map[ssa.Value]Val, 
 		var roots []ssa.Value
 		rootsOf(v, &roots, 0)
 		ff := firstField(v)
+		viaPtr := throughPointerLoad(v)
 		if len(roots) != 1 || depth > 0 {
 			ff = -1
 		}
@@ -898,6 +939,18 @@ func (fr *Frame) collectWrites(blocks []*ssa.BasicBlock, env map[ssa.Value]Val, 
 			}
 			if !ok {
 				continue // defined inside the region: fresh per iteration
+			}
+			if val.Loc != nil && viaPtr && len(val.Loc.Path) == 0 && fr.curState != nil {
+				// the store goes through a pointer held in this cell (a captured pointer variable): what is
+				// written is the pointee, if we know which cell that is
+				if pv, ok := fr.curState.ptrs[val.Loc.Cell]; ok && pv.Loc != nil {
+					out[pv.Loc.Cell] = true
+					if len(pv.Loc.Path) != 0 {
+						ff = -1
+					}
+					note(pv.Loc.Cell)
+					continue
+				}
 			}
 			if val.Loc != nil {
 				out[val.Loc.Cell] = true
